@@ -7,6 +7,9 @@ import argparse
 import subprocess
 import sys
 
+import os as _os
+_os.environ.setdefault('VERIF_EVIDENCE_DIR', '/tmp/verif_evidence_scratch')      # these tools run checks against a CHANGED tree: /verif/evidence is not theirs to write
+
 ap = argparse.ArgumentParser()
 ap.add_argument('--file')
 ap.add_argument('--old')
